@@ -39,6 +39,60 @@ thread_local! {
     static CHEAP_FALLOC: std::cell::Cell<bool> = const { std::cell::Cell::new(false) };
 }
 
+/// Intercepted calls, for error-return injection.
+#[derive(Clone, Copy, Debug, PartialEq, Eq)]
+pub enum Sys {
+    Pwrite = 0,
+    Fdatasync = 1,
+    Fsync = 2,
+    Fallocate = 3,
+}
+
+thread_local! {
+    static ARMED: std::cell::Cell<bool> = const { std::cell::Cell::new(false) };
+    static COUNTS: std::cell::Cell<[u64; 4]> = const { std::cell::Cell::new([0; 4]) };
+    static FAULT: std::cell::Cell<Option<(Sys, u64, i32)>> = const { std::cell::Cell::new(None) };
+    static FIRED: std::cell::Cell<bool> = const { std::cell::Cell::new(false) };
+}
+
+/// Start counting this thread's intercepted calls; `fault = (call, index, errno)` makes the
+/// index-th call of that kind (counted from arming) return -1 with that errno, once.
+pub fn arm(fault: Option<(Sys, u64, i32)>) {
+    COUNTS.with(|c| c.set([0; 4]));
+    FAULT.with(|c| c.set(fault));
+    FIRED.with(|c| c.set(false));
+    ARMED.with(|c| c.set(true));
+}
+
+pub fn fired() -> bool {
+    FIRED.with(|c| c.get())
+}
+
+/// Stop counting; returns the per-call counts since arming and whether the fault fired.
+pub fn disarm() -> ([u64; 4], bool) {
+    ARMED.with(|c| c.set(false));
+    FAULT.with(|c| c.set(None));
+    (COUNTS.with(|c| c.get()), FIRED.with(|c| c.get()))
+}
+
+fn inject(sys: Sys) -> bool {
+    if !ARMED.with(|c| c.get()) {
+        return false;
+    }
+    let mut counts = COUNTS.with(|c| c.get());
+    let idx = counts[sys as usize];
+    counts[sys as usize] += 1;
+    COUNTS.with(|c| c.set(counts));
+    if let Some((s, i, errno)) = FAULT.with(|c| c.get()) {
+        if s == sys && i == idx && !FIRED.with(|c| c.get()) {
+            FIRED.with(|c| c.set(true));
+            unsafe { *libc::__errno_location() = errno };
+            return true;
+        }
+    }
+    false
+}
+
 pub fn set_cheap_falloc(on: bool) {
     CHEAP_FALLOC.with(|c| c.set(on));
 }
@@ -71,6 +125,9 @@ fn ours(fd: i32) -> bool {
 #[unsafe(no_mangle)]
 pub unsafe extern "C" fn pwrite64(fd: i32, buf: *const c_void, count: usize, offset: i64) -> isize {
     SEEN_PWRITE.fetch_add(1, Ordering::Relaxed);
+    if inject(Sys::Pwrite) {
+        return -1;
+    }
     let r = unsafe { libc::syscall(libc::SYS_pwrite64, fd, buf, count, offset) } as isize;
     if r > 0 && ours(fd) {
         let data = unsafe { std::slice::from_raw_parts(buf as *const u8, r as usize) }.to_vec();
@@ -84,6 +141,9 @@ pub unsafe extern "C" fn pwrite64(fd: i32, buf: *const c_void, count: usize, off
 #[unsafe(no_mangle)]
 pub unsafe extern "C" fn fdatasync(fd: i32) -> i32 {
     SEEN_FDATASYNC.fetch_add(1, Ordering::Relaxed);
+    if inject(Sys::Fdatasync) {
+        return -1;
+    }
     let r = unsafe { libc::syscall(libc::SYS_fdatasync, fd) } as i32;
     if r == 0 && ours(fd) {
         LOG.lock().unwrap().push(Rec::Sync);
@@ -96,6 +156,9 @@ pub unsafe extern "C" fn fdatasync(fd: i32) -> i32 {
 #[unsafe(no_mangle)]
 pub unsafe extern "C" fn fsync(fd: i32) -> i32 {
     SEEN_FSYNC.fetch_add(1, Ordering::Relaxed);
+    if inject(Sys::Fsync) {
+        return -1;
+    }
     let r = unsafe { libc::syscall(libc::SYS_fsync, fd) } as i32;
     if r == 0 && ours(fd) {
         LOG.lock().unwrap().push(Rec::Sync);
@@ -108,6 +171,9 @@ pub unsafe extern "C" fn fsync(fd: i32) -> i32 {
 #[unsafe(no_mangle)]
 pub unsafe extern "C" fn fallocate64(fd: i32, mode: i32, offset: i64, len: i64) -> i32 {
     SEEN_FALLOCATE.fetch_add(1, Ordering::Relaxed);
+    if inject(Sys::Fallocate) {
+        return -1;
+    }
     if mode == 0 && CHEAP_FALLOC.with(|c| c.get()) {
         // extend the file size without allocating pages (reads give zeros either way)
         let mut st: libc::stat = unsafe { std::mem::zeroed() };
